@@ -9,6 +9,7 @@ import LpProofs.C14.Inside
 import LpProofs.C14.Miser
 import LpProofs.C14.Rebin
 import LpProofs.C14.VegasInit
+import LpProofs.C14.Cells
 namespace Lp.C14
 
 variable {G : Type}
@@ -512,5 +513,53 @@ theorem vegas_ia_overrun_witness : vegasIa (vegasXn 25 0 ((25 : Nat) / (25 : Int
    (`vegasRc_reads_live`) provided `ia ≤ nd` (`vegas_ia_range`).  `ia, x, dt, r, xin` are written before
    they are read inside one sample / one refinement (reading the code).  The iterations are decided by the
    class-D correspondence (bit-for-bit against a fresh process). -/
+
+/-! ## Vegas: stratification cells and the cell odometer (fourth-wave seeds C14-j, C14-k) -/
+
+/-- the odometer `kg` stays in `1..ng` during a sweep, and the value `ng` itself is stored: the index type of
+    `kg` must represent `ng = (vegasCells ng0 ncall ndim).ng` (an obligation on any narrower index type) -/
+theorem vegas_kg_range (ng : Nat) (hng : 1 ≤ ng) (kg : List Nat) (h : InCells ng kg) : InCells ng (odoRev ng kg).1 :=
+  odoRev_range ng hng kg h
+
+theorem vegas_kg_max_attained (ng : Nat) (hng : 2 ≤ ng) (rest : List Nat) :
+    odoRev ng ((ng - 1) :: rest) = (ng :: rest, false) := odoRev_reaches_ng ng hng rest
+
+/-- the largest cell index for a one-dimensional call with 2·10⁵ evaluations (`ng0 = 100000`) is 98049:
+    it does not fit 16 bits; in 2…6 dimensions and budgets ≤ 10⁶ it stays ≤ 707 -/
+theorem vegas_kg_max_1d_witness :
+    (vegasCells 100000 200000 1).ng = 98049 ∧ 65535 < (vegasCells 100000 200000 1).ng ∧ (vegasCells 707 1000000 2).ng = 705 := by
+  decide
+
+/-- number of evaluations of that call: 5 sweeps × 98049 cells × 2 points -/
+theorem vegas_evaluations_1d_witness : vegasEvaluations (vegasCells 100000 200000 1) = 980490 := by decide
+
+/-- a sweep that starts at `(1,…,1)` (what the per-iteration reset `kg[j] = 1` guarantees: `vegasIterPrologue`)
+    visits all `ng^ndim` cells and leaves the odometer at `(1,…,1)` -/
+theorem vegas_sweep_full (ng ndim : Nat) (hng : 1 ≤ ng) (f : Nat) (hf : ng ^ ndim ≤ f) :
+    sweepLen ng f (List.replicate ndim 1) = ng ^ ndim := by
+  have hin : InCells ng (List.replicate ndim 1) := by
+    intro c hc; rw [List.mem_replicate] at hc; omega
+  have hv : odoVal ng (List.replicate ndim 1) = 0 := by
+    induction ndim with
+    | zero => rfl
+    | succ n ih =>
+      simp only [List.replicate_succ, odoVal]
+      rw [ih (by simpa using (by
+        have : ng ^ n ≤ ng ^ (n + 1) := Nat.pow_le_pow_right hng (by omega)
+        omega)) (by intro c hc; rw [List.mem_replicate] at hc; omega)]
+      simp
+  exact sweepLen_eq ng hng _ f _ hin (by rw [List.length_replicate, hv]; omega) hf
+
+/-- a sweep that starts from a STALE odometer (left mid-way by an abandoned or enclosing call) visits only the
+    remaining cells: without the per-iteration reset the result depends on the history -/
+theorem vegas_sweep_stale (ng : Nat) (hng : 1 ≤ ng) (kg : List Nat) (h : InCells ng kg) (f : Nat) (hf : ng ^ kg.length ≤ f) :
+    sweepLen ng f kg = ng ^ kg.length - odoVal ng kg :=
+  sweepLen_eq ng hng _ f kg h rfl (by omega)
+
+theorem vegas_sweep_stale_witness : sweepLen 3 100 [1, 1] = 9 ∧ sweepLen 3 100 [3, 2] = 4 := by decide
+
+/-- a finished sweep returns the odometer to `(1,…,1)` — the only reason a hoisted one-time reset looks equivalent -/
+theorem vegas_sweep_returns_ones (ng : Nat) (kg : List Nat) (h : (odoRev ng kg).2 = true) :
+    (odoRev ng kg).1 = List.replicate kg.length 1 := odoRev_done_ones ng kg h
 
 end Lp.C14
